@@ -173,7 +173,7 @@ func gen(out *vc.Out, r *vc.Rand, thorough bool) {
 	}
 
 	// E: random structured cases (mostly valid requests, some malformed, quotas, faults, expiry)
-	faults := append(append([]string{"get:Get:code"}, aw...), rw...)
+	faults := append(append([]string{"get:Get:code", "update:w2", "update:w0", "update:w1"}, aw...), rw...)
 	listeners := []int64{101, 102, 103, 500, 101, 102, 0}
 	rounds := 1500
 	xBudget := 60
